@@ -87,6 +87,9 @@ func parseFrame(raw []byte) Frame {
 		}
 		f.Channel, f.Seq = b[1], b[2]
 		f.CEMI = b[4:]
+		if len(f.CEMI) > 0 && (f.CEMI[0] == 0x11 || f.CEMI[0] == 0x29 || f.CEMI[0] == 0x2e) && !parseLData(f.CEMI).OK {
+			return f // an L_Data frame that does not add up: no tunnelling request at all
+		}
 	case svcTunnelRes:
 		if len(b) != 4 || b[0] != 4 {
 			return f
